@@ -170,9 +170,10 @@ class Check:
         code = 0
         for e in errors:
             out.append(f"ANALYSIS-ERROR property={self.prop} {e}")
+        fatal = self.extra.get("fatal_analysis_error") if hasattr(self, "extra") else None
         if n_viol:
             code = 1  # a concrete violation outranks an unmet floor elsewhere
-        elif errors:
+        elif errors or fatal:
             code = 2
         self._write_evidence(wall, n_viol, n_known, errors, stale)
         if not self.quiet:
